@@ -28,7 +28,7 @@ def run(tier, seed, replay=None):
     if replay:
         tr = json.load(open(replay))["trace"]
         fn = "run_knap" if tr["kind"] == "knap" else "run_bins"
-        trs = _fix(run_tasks("pack", fn, [tr["input"]], timeout=30), [tr["input"]], tr["kind"])
+        trs = _fix(run_tasks("pack", fn, [tr["input"]], timeout=120), [tr["input"]], tr["kind"])
         ck.classify(trs, ck.validate(DIR, "PackTrace", trs, "replay"))
         return ck.finish()
     ck.mc(DIR, "PackAlgs", "MC_knap3.cfg")
@@ -40,7 +40,7 @@ def run(tier, seed, replay=None):
     nq = 500 if tier == "quick" else 8000
     kc = [drv.gen_knap(rng) for _ in range(nq)]
     bc = [drv.gen_bins(rng) for _ in range(nq)]
-    trs = _fix(run_tasks("pack", "run_knap", kc, timeout=30), kc, "knap") + _fix(run_tasks("pack", "run_bins", bc, timeout=30), bc, "bins")
+    trs = _fix(run_tasks("pack", "run_knap", kc, timeout=120), kc, "knap") + _fix(run_tasks("pack", "run_bins", bc, timeout=120), bc, "bins")
     vs = ck.validate(DIR, "PackTrace", trs, "solve_knapsack (max/min) and solve_bin_pack (4 heuristics)", timeout=14400)
     ck.classify(trs, vs, nontrivial=lambda t, v: len(t["values"]) + len(t["sizes"]) >= 2)
     for t in trs:
